@@ -39,6 +39,33 @@ impl MaterializedSink {
         Ok(())
     }
 
+    pub fn bootstrap_from_manifest(&mut self)
+     ensures
+         !lex_gt(old(self).high_water, final(self).high_water), // OBL:C14.sink_mark.bootstrap.mark_not_below_the_initial_mark
+         forall|i: int| 0 <= i < store_frames(old(self).store).len() ==> !lex_gt((#[trigger] store_frames(old(self).store)[i]).high_water_mark, final(self).high_water), // OBL:C14.sink_mark.bootstrap.mark_not_below_any_stored_frame
+         final(self).high_water == old(self).high_water || exists|i: int| 0 <= i < store_frames(old(self).store).len() && (#[trigger] store_frames(old(self).store)[i]).high_water_mark == final(self).high_water, // OBL:C14.sink_mark.bootstrap.mark_is_one_of_them
+{
+        // The mark is the maximum over all stored frames, not the last frame's (frames are not ordered by mark).
+        let mut mark = self.high_water;
+        for frame in it: self.store.frames() 
+         invariant
+             it.history@.len() == it.index@, forall|j: int| 0 <= j < it.index@ ==> *(#[trigger] it.history@[j]) == store_frames(self.store)[j],
+             self.store == old(self).store, self.high_water == old(self).high_water,
+             !lex_gt(old(self).high_water, mark),
+             forall|i: int| 0 <= i < it.index@ ==> !lex_gt((#[trigger] store_frames(self.store)[i]).high_water_mark, mark),
+             mark == old(self).high_water || exists|i: int| 0 <= i < it.index@ && (#[trigger] store_frames(self.store)[i]).high_water_mark == mark,
+{
+             assert(*frame == store_frames(self.store)[it.index@]);
+
+            mark.advance(frame.high_water_mark.timestamp, frame.high_water_mark.event_id);
+        }
+        self.high_water = mark;
+
+        self.recompute_totals();
+        self.last_rows_appended = 0;
+        self.last_bytes_appended = 0;
+    }
+
 }
 
 // ---- spec functions and lemmas from the contract file ----
@@ -59,7 +86,8 @@ pub struct MaterializationError { _p: core::marker::PhantomData<()> }
 
 #[derive(Clone, Copy)]
 pub struct HighWaterMark { pub timestamp: u64, pub event_id: u64 }
-pub struct StoredFrameMeta { pub high_water_mark: HighWaterMark, pub row_count: u32, pub compressed_len: u32 }
+pub struct StoredFrameMeta { pub high_water_mark: HighWaterMark, pub row_count: u32, pub compressed_len: u32, pub schema_hash: u64 }
+pub uninterp spec fn store_frames(s: MaterializedStore) -> Seq<StoredFrameMeta>;
 
 pub open spec fn lex_gt(a: HighWaterMark, b: HighWaterMark) -> bool {
     a.timestamp > b.timestamp || (a.timestamp == b.timestamp && a.event_id > b.event_id)
@@ -86,9 +114,18 @@ impl SchemaGuard {
 }
 impl MaterializedStore {
     #[verifier::external_body]
+    pub fn frames(&self) -> (r: &[StoredFrameMeta]) ensures r@ == store_frames(*self) { unimplemented!() }
+    #[verifier::external_body]
     pub fn append_batch(&mut self, schema: &[SchemaSnapshot], batch: &ColumnBatch) -> Result<StoredFrameMeta, MaterializationError> { unimplemented!() }
 }
 
+impl MaterializedSink {
+    /// totals are bookkeeping, not part of the mark: external here
+    #[verifier::external_body]
+    pub fn recompute_totals(&mut self)
+        ensures final(self).high_water == old(self).high_water, final(self).store == old(self).store
+    { unimplemented!() }
+}
 pub proof fn lemma_advance_is_lex_max(m: HighWaterMark, t: u64, e: u64)
     ensures ({
         let n = HighWaterMark { timestamp: t, event_id: e };
